@@ -9,24 +9,25 @@ import exec_gen as G
 TRACE_JAVA = "-Xss1g -Dtlc2.tool.queue.IStateQueue=StateDeque"
 
 
-def mc_cfg(family, tier, quiescent, trackhist, emit, maxspur, reduce, invariants, properties=()):
+def mc_cfg(family, tier, quiescent, trackhist, emit, maxspur, reduce, invariants, properties=(), spec="Spec", live=False):
     b = lambda x: "TRUE" if x else "FALSE"
-    s = "SPECIFICATION Spec\nCONSTANTS\n"
+    s = f"SPECIFICATION {spec}\nCONSTANTS\n"
     s += f' Family = "{family}"\n Tier = "{tier}"\n Quiescent = {b(quiescent)}\n TrackHist = {b(trackhist)}\n'
-    s += f" Emit = {b(emit)}\n MaxSpurious = {maxspur}\n Reduce = {b(reduce)}\n"
+    s += f" Emit = {b(emit)}\n MaxSpurious = {maxspur}\n Reduce = {b(reduce)}\n Live = {b(live)}\n"
     if invariants:
         s += "INVARIANTS " + " ".join(invariants) + "\n"
     if properties:
         s += "PROPERTIES " + " ".join(properties) + "\n"
-    s += "CHECK_DEADLOCK FALSE\n"
+    s += "CHECK_DEADLOCK TRUE\n" if live else "CHECK_DEADLOCK FALSE\n"
     return s
 
 
 def model_check(pid, tier, family, invariants, trackhist=False, reduce=True, workers=8, timeout=3000, tag=None):
+    # history instances run against the quiescent-point environment: with free polls the history is unbounded
     """(A): exhaustive check of the invariants on the family, all interleavings."""
     wd = C.workdir(pid, "tlc")
     tag = tag or f"mc_{family}"
-    rc, text = C.tlc("MCExec", mc_cfg(family, tier, False, trackhist, False, 0, reduce, invariants), wd, tag,
+    rc, text = C.tlc("MCExec", mc_cfg(family, tier, trackhist, trackhist, False, 0, reduce, invariants), wd, tag,
                      workers=workers, timeout=timeout)
     v = C.tlc_violation(text)
     states, trans = C.tlc_stats(text)
@@ -34,6 +35,20 @@ def model_check(pid, tier, family, invariants, trackhist=False, reduce=True, wor
         raise C.ToolError(f"TLC failed on {family} ({tag}): see {wd}/{tag}.out\n" + text[-2000:])
     return {"family": family, "violated": v, "states": states, "transitions": trans, "out": os.path.join(wd, tag + ".out"),
             "cmd": f"tlc -workers {workers} -config {tag}.cfg MCExec.tla  (Family={family}, Tier={tier}, invariants: {' '.join(invariants)})"}
+
+
+def model_check_live(pid, tier, family, maxspur=0, workers=4, timeout=3000):
+    """(A), liveness: under weak fairness every evaluation completes (quiescent-mode environment)."""
+    wd = C.workdir(pid, "tlc")
+    tag = f"live_{family}"
+    rc, text = C.tlc("MCExec", mc_cfg(family, tier, True, False, False, maxspur, True, ["TypeOK", "Bounded"], live=True),
+                     wd, tag, workers=workers, timeout=timeout)
+    v = C.tlc_violation(text)
+    states, trans = C.tlc_stats(text)
+    if v is None and not C.tlc_ok(text):
+        raise C.ToolError(f"TLC failed on {family} ({tag}): see {wd}/{tag}.out\n" + text[-2000:])
+    return {"family": family, "violated": v, "states": states, "transitions": trans, "out": os.path.join(wd, tag + ".out"),
+            "cmd": f"tlc -workers {workers} -config {tag}.cfg MCExec.tla  (Live=TRUE: step counter Bounded + CHECK_DEADLOCK TRUE = every maximal path completes; Family={family}, Tier={tier})"}
 
 
 def emit_runs(pid, tier, family, maxspur=0, workers=8, timeout=3000):
